@@ -21,7 +21,7 @@ Section Props.
     { rewrite <- (firstn_skipn (Z.to_nat so) ln) at 1. f_equal.
       rewrite <- (firstn_skipn (Z.to_nat (eo - so)) (skipn (Z.to_nat so) ln)) at 1. f_equal.
       rewrite skipn_skipn. f_equal. lia. }
-    destruct (eo <=? 0)%Z eqn:Ez.
+    destruct (eo <=? so)%Z eqn:Ez.
     - destruct (step_char (skipn (Z.to_nat eo) ln)) as [[c r2]|] eqn:Es; [|discriminate].
       intro H. inversion H; subst o ln2; clear H.
       assert (Hc : skipn (Z.to_nat eo) ln = c ++ r2 /\ (1 <= length c)%nat).
@@ -124,6 +124,24 @@ Section Props.
   Qed.
 End Props.
 
+  (* a character is stepped over after every empty match and after no other *)
+Lemma empty_match_steps rep ln offs g m r c rest : match_seg rep ln offs (g, m, r, c) rest ->
+    (m = [] -> (1 <= length c)%nat /\ step_char (c ++ rest) = Some (c, rest)) /\ (m <> [] -> c = []).
+  Proof.
+    intros (so & eo & t & c' & E0 & Hb & Hlen & Et & Es & Hsk & Hstep). inversion Es; subst g m r c'; clear Es.
+    destruct (eo <=? so)%Z eqn:Ez.
+    - split.
+      + intros _. rewrite <- Hsk. split; [|exact Hstep].
+        unfold step_char in Hstep. destruct (length _ <? _)%nat eqn:El; [discriminate|].
+        inversion Hstep as [[Hc Hr]]. rewrite firstn_length. apply Nat.ltb_ge in El.
+        pose proof (Nat.le_max_l 1 (uc_len (skipn (Z.to_nat eo) ln))) as H.
+        apply Nat.min_glb; [exact H|eapply Nat.le_trans; [exact H|exact El]].
+      + intro Hm. exfalso. apply Hm. replace (Z.to_nat (eo - so)) with 0%nat by lia. reflexivity.
+    - split; [|intros _; exact Hstep].
+      intro Hm. exfalso. assert (Hl := f_equal (@length N) Hm). rewrite firstn_length, skipn_length in Hl. cbn in Hl. lia.
+  Qed.
+
+
 (* \N of a group that did not take part expands to nothing (and reads nothing) *)
 Lemma grp_text_unset ln : grp_text ln unset = Some [].
 Proof. reflexivity. Qed.
@@ -137,3 +155,48 @@ Qed.
 Theorem escaped_byte d rep2 ln offs : is_digit d = false ->
   expand (92 :: d :: rep2) ln offs = opt_app [d] (expand rep2 ln offs).
 Proof. intros Hd. cbn [expand]. replace (92 =? 92) with true by reflexivity. now rewrite Hd. Qed.
+
+(* ------------------------------------------------------------------------------------------ *)
+(* the remembered pattern *)
+Definition plain (d : N) (p : bytes) : Prop := Forall (fun c => c <> d /\ c <> 92) p.
+
+Lemma re_read_loop_plain d p tail : plain d p -> re_read_loop d (p ++ d :: tail) = (p, tail).
+Proof.
+  induction 1 as [|c p [Hd Hb] Hp IH]; cbn [app re_read_loop].
+  - now rewrite N.eqb_refl.
+  - destruct (N.eqb_spec c d); [contradiction|]. destruct (N.eqb_spec c 92); [contradiction|]. now rewrite IH.
+Qed.
+
+Definition setup_state (st : sstate) (arg : bytes) : sstate := fst (fst (subst_setup st arg)).
+Definition setup_pat (st : sstate) (arg : bytes) : option bytes := snd (fst (subst_setup st arg)).
+
+(* s/pat/... with a non-empty pattern compiles that pattern and remembers it *)
+Lemma setup_remember st d p tail : plain d p -> p <> [] ->
+  setup_pat st (d :: p ++ d :: tail) = Some p /\ st_kwd (setup_state st (d :: p ++ d :: tail)) = Some p.
+Proof.
+  intros Hp Hne. unfold setup_pat, setup_state, subst_setup, subst_args.
+  rewrite (re_read_loop_plain d p tail Hp).
+  destruct p as [|c p]; [contradiction|].
+  destruct tail as [|t tail]; [split; reflexivity|].
+  destruct (re_read_loop d (t :: tail)) as [r rest2]. split; reflexivity.
+Qed.
+
+(* s//... compiles the remembered pattern and keeps it *)
+Lemma setup_empty st d tail :
+  setup_pat st (d :: d :: tail) = st_kwd st /\ st_kwd (setup_state st (d :: d :: tail)) = st_kwd st.
+Proof.
+  unfold setup_pat, setup_state, subst_setup, subst_args. cbn [re_read_loop]. rewrite N.eqb_refl.
+  destruct tail as [|t tail]; [split; reflexivity|].
+  destruct (re_read_loop d (t :: tail)) as [r rest2]. split; reflexivity.
+Qed.
+
+Theorem reuse st d p tail d2 tail2 : plain d p -> p <> [] ->
+  setup_pat (setup_state st (d :: p ++ d :: tail)) (d2 :: d2 :: tail2) = Some p.
+Proof.
+  intros Hp Hne. destruct (setup_empty (setup_state st (d :: p ++ d :: tail)) d2 tail2) as [-> _].
+  apply (setup_remember st d p tail Hp Hne).
+Qed.
+
+(* with no remembered pattern an empty pattern is an error (nothing is compiled) *)
+Lemma setup_empty_none d tail rep0 : setup_pat (mk_sstate None rep0) (d :: d :: tail) = None.
+Proof. now destruct (setup_empty (mk_sstate None rep0) d tail) as [-> _]. Qed.
